@@ -47,38 +47,101 @@ def c_facts(tu):
     facts, findings = {}, []
     n = 0
     fn = tu.func("_BTree_set")
-    # the two `toobig = childlength > max_size` assignments, by branch of the
-    # child-kind test
-    for ifs in fn.walk():
-        if ifs.k != "IfStmt" or len(ifs.kids) < 3:
-            continue
-        if "Py_TYPE" not in text(ifs.kids[0]):
-            continue
-        got = {}
-        for label, br in (("tree_child", ifs.kids[1]), ("leaf_child", ifs.kids[2])):
-            for a in br.walk():
-                if a.k == "BinaryOperator" and a.v == "=" and path(a.kids[0]) == "toobig":
-                    c = strip(a.kids[1])
-                    if c.k == "BinaryOperator" and c.v in (">", ">=", "<", "<="):
-                        lhs, rhs = path(c.kids[0]), path(c.kids[1])
-                        # find the decl of rhs in this branch
-                        src = None
-                        for d in br.walk():
-                            if d.k == "VarDecl" and d.n == rhs and d.kids:
-                                cc = strip(d.kids[-1])
-                                if cc is not None and cc.k == "CallExpr" and callee(cc)[0] == "fn":
-                                    src = _attr_of_size_fn(tu, callee(cc)[1])
-                        got[label] = (c.v, src, lhs)
-        if len(got) == 2:
-            # orientation: SameType_Check true = child is a tree
-            neg = text(ifs.kids[0]).count("!=") > 0
-            if neg:
-                got = {"tree_child": got["leaf_child"], "leaf_child": got["tree_child"]}
-            for k, v in got.items():
-                facts[k] = (v[0], v[1])
-                if v[2] != "childlength":
-                    facts[k] = (v[0], v[1], "compares " + str(v[2]))
-    if "tree_child" not in facts:
+    # The too-big decision per child kind: _BTree_set (and the helpers it
+    # calls) is walked once with "the child is a tree" and once with "the
+    # child is a leaf" deciding the child-kind tests; locals assigned from a
+    # _max_*_size helper carry that attribute; the comparison of the child's
+    # length with such a local is the fact.
+    for kind in ("tree_child", "leaf_child"):
+        hits = []
+
+        def walk(node, env, depth):
+            k = node.k
+            if k == "IfStmt":
+                ct = text(node.kids[0])
+                if "Py_TYPE" in ct and "==" in ct or "Py_TYPE" in ct and "!=" in ct:
+                    c0 = strip(node.kids[0])
+                    neg = False
+                    while c0 is not None and c0.k == "UnaryOperator" and c0.v == "!":
+                        neg = not neg
+                        c0 = strip(c0.kids[0])
+                    if c0 is not None and c0.k == "BinaryOperator" and c0.v in ("==", "!="):
+                        same = (c0.v == "==") != neg          # true iff "child has self's type"
+                        take = (kind == "tree_child") == same
+                        walk(node.kids[0], env, depth)
+                        if take:
+                            walk(node.kids[1], env, depth)
+                        elif len(node.kids) > 2:
+                            walk(node.kids[2], env, depth)
+                        return
+                for c in node.kids:
+                    walk(c, env, depth)
+                return
+            if k == "ConditionalOperator":
+                ct = text(node.kids[0])
+                c0 = strip(node.kids[0])
+                if "Py_TYPE" in ct and c0 is not None and c0.k == "BinaryOperator" and c0.v in ("==", "!="):
+                    same = c0.v == "=="
+                    take = (kind == "tree_child") == same
+                    walk(node.kids[1] if take else node.kids[2], env, depth)
+                    return
+            if k == "VarDecl" and node.kids and node.kids[-1].k != "Absent":
+                walk(node.kids[-1], env, depth)
+                src = size_attr(node.kids[-1], env, depth)
+                if src:
+                    env[node.n] = src
+                return
+            if k == "BinaryOperator" and node.v == "=":
+                walk(node.kids[1], env, depth)
+                lp = path(node.kids[0])
+                src = size_attr(node.kids[1], env, depth)
+                if lp and src:
+                    env[lp] = src
+                return
+            if k == "BinaryOperator" and node.v in (">", ">=", "<", "<="):
+                a, b = node.kids
+                sa_, sb_ = env.get(path(a) or ""), env.get(path(b) or "")
+                ca, cb = const_int(a), const_int(b)
+                if sb_ and ca is None and not sa_:
+                    hits.append((node.v, sb_, path(a) or text(a)))
+                elif sa_ and cb is None and not sb_:
+                    flip = {">": "<", "<": ">", ">=": "<=", "<=": ">="}[node.v]
+                    hits.append((flip, sa_, path(b) or text(b)))
+            if k == "CallExpr" and callee(node)[0] == "fn":
+                cn = callee(node)[1]
+                if cn in tu.funcs and cn not in ("_BTree_set", "BTree_grow", "_bucket_set") and depth < 3 \
+                        and not cn.startswith("_max_") and cn != "_get_max_size":
+                    params = tu.params(cn)
+                    env2 = {}
+                    for p0, a in zip(params, node.kids[1:]):
+                        pa = path(a)
+                        env2[p0.n] = env.get(pa or "", None)
+                        if pa and ("childlength" in pa or "len" in pa):
+                            env2["@len:" + p0.n] = True
+                    walk(tu.body(cn), env2, depth + 1)
+            for c in node.kids:
+                walk(c, env, depth)
+
+        def size_attr(e, env, depth):
+            e0 = strip(e)
+            if e0 is not None and e0.k == "CallExpr" and callee(e0)[0] == "fn":
+                return _attr_of_size_fn(tu, callee(e0)[1])
+            if e0 is not None and e0.k == "ConditionalOperator":
+                ct = text(e0.kids[0])
+                c0 = strip(e0.kids[0])
+                if "Py_TYPE" in ct and c0 is not None and c0.k == "BinaryOperator" and c0.v in ("==", "!="):
+                    take = (kind == "tree_child") == (c0.v == "==")
+                    return size_attr(e0.kids[1] if take else e0.kids[2], env, depth)
+            p = path(e)
+            return env.get(p) if p else None
+        walk(tu.body("_BTree_set"), {}, 0)
+        hits = sorted(set(h for h in hits if h[0] in (">", ">=")))
+        if len(hits) == 1:
+            op, attr, lhs = hits[0]
+            facts[kind] = (op, attr) if "childlength" in lhs or lhs.endswith("len") else (op, attr, "compares " + lhs)
+        elif hits:
+            facts[kind] = ("ambiguous",) + tuple(hits)
+    if "tree_child" not in facts or "leaf_child" not in facts:
         raise AnalysisError("unrecognised idiom: too-big test of _BTree_set in %s" % tu.stub)
     g = tu.func("BTree_grow")
     for c in g.walk():
